@@ -216,13 +216,15 @@ def r4(F, R):
     R.check(len(wr) == 1, "collector-writer", None, "", f"{len(wr)} io::Write impls for CollectorWriter")
     if len(wr) == 1:
         w = wr[0]
+        wfam = roles.family(F, w)   # the parsing may live in a private helper of `write`
         consts = []
         named = {"tracing::suffix::END": "__cucumber__scenario", "tracing::suffix::NO_SCENARIO_ID": "__unknown", "tracing::suffix::BEFORE_SCENARIO_ID": "__"}
-        for _, t in w.calls():
-            consts += [const_str(a) for a in t["args"] if const_str(a) is not None]
-            consts += [named[a["text"]] for a in t["args"] if a.get("k") == "const" and a.get("text") in named]
-        for _, st in w.assigns():
-            consts += [const_str(o) for o in A.rvalue_operands(st["rv"]) if const_str(o) is not None]
+        for wb in wfam:
+            for _, t in wb.calls():
+                consts += [const_str(a) for a in t["args"] if const_str(a) is not None]
+                consts += [named[a["text"]] for a in t["args"] if a.get("k") == "const" and a.get("text") in named]
+            for _, st in wb.assigns():
+                consts += [const_str(o) for o in A.rvalue_operands(st["rv"]) if const_str(o) is not None]
         fm = [x for x in F.crate_bodies() if (x.impl or {}).get("self_adt") == "tracing::AppendScenarioMsg" and x.name.endswith("::format_event")]
         fconsts = []
         for x in fm:
@@ -238,7 +240,7 @@ def r4(F, R):
         FROM_END = {"rsplit_once", "rfind", "rsplitn", "rsplit", "strip_suffix", "ends_with", "rsplit_terminator", "rmatch_indices", "rmatches"}
         FROM_START = {"split_once", "find", "splitn", "split", "strip_prefix", "starts_with", "match_indices", "matches", "split_inclusive"}
         n_sep = 0
-        for s2, t2 in w.calls():
+        for s2, t2 in [(s_, t_) for wb in wfam for s_, t_ in wb.calls()]:
             f2 = op_fn(t2["func"])
             if not f2 or not re.search(r"(^|::)str::", f2["path"]) and "str" not in f2.get("self", ""):
                 continue
@@ -251,14 +253,25 @@ def r4(F, R):
                     R.check(meth in FROM_END, f"writer-marker-from-end/{'id' if pat == '__' else 'no-id'}", s2, f"{meth}({pat!r}) searches from the end",
                             f"the appended marker {pat!r} is searched with `{meth}` (from the start): a log text containing {pat!r} is split at the wrong place and the record is dropped or mis-attributed")
         R.check(n_sep >= 2, "writer-marker-sites", w, "", f"{n_sep} marker searches found in CollectorWriter::write")
-        sends = [(s, t) for s, t in roles.sends(F, [w])]
-        vs = []
-        for s, t in sends:
-            sl = A.slice_back(w, [t["args"][1]])
-            opt = [rv["variant"] for _, rv in sl.aggs if rv.get("adt") == "std::option::Option" and w.locals[_agg_local(w, rv)] .startswith("std::option::Option<runner::basic::ScenarioId>")] if False else \
-                  [rv["variant"] for site, rv in sl.aggs if rv.get("adt") == "std::option::Option"]
-            vs.append(sorted(set(opt)))
-        R.check(sorted(map(tuple, vs)) == [("None",), ("Some",)], "writer-attributes-id", w, "(None, msg) for unknown, (Some(id), msg) for tagged", f"CollectorWriter sends {vs}")
+        # what is sent, per path of `write` (deep table, helpers inlined): (None, text) when the no-id marker ended the
+        # record, (Some(parsed id), text) when the id marker did
+        from . import deep as D
+        kinds = {}
+        for p in D.Deep(F, w, max_paths=2000).run():
+            for e in p.effects:
+                if e[0] == "call" and re.search(r"UnboundedSender(::<.*>)?::unbounded_send$", e[1]) and len(e[2]) > 1 and e[2][1][0] == "tuple":
+                    first = e[2][1][1][0]
+                    noid = [o for a, o in p.conds if a[0] == "discr" and a[1][0] == "call" and re.search(r"str::.*split|::r?split_once$|::r?find$", a[1][1]) and
+                            any(x in (("const", "__unknown"), ("const", "tracing::suffix::NO_SCENARIO_ID")) for x in D.subterms(a[1]))]
+                    if D.is_variant(first, "std::option::Option", "None"):
+                        kinds.setdefault("None", []).append(noid[-1:] == ["Some"])
+                    elif D.is_variant(first, "std::option::Option", "Some"):
+                        parsed = D.mentions(first, lambda x: x[0] == "call" and re.search(r"str::parse$|FromStr::from_str$|::parse$", x[1]))
+                        kinds.setdefault("Some", []).append(parsed and noid[-1:] == ["None"])
+                    else:
+                        kinds.setdefault("?", []).append(False)
+        okk = set(kinds) == {"None", "Some"} and all(all(v) for v in kinds.values())
+        R.check(okk, "writer-attributes-id", w, "(None, msg) for unknown, (Some(id), msg) for tagged", f"CollectorWriter sends { {k: v for k, v in kinds.items()} }")
     R.floor(8)
 
 
